@@ -200,6 +200,29 @@ def wrapSeq (m : Mode) : Val → Option (List Val)
   | .dict [] => if m.noCast then none else some []
   | v => if m.noCast then none else some [v]
 
+/-- `transform_dataclass` (cls.py:616-630): a non-empty list / tuple given where a data class is expected stands
+for its first item unless `no_explicit_cast` (more than one item is a data loss: TypeError before any context
+is made).  `none` = that TypeError. -/
+def unwrapData (m : Mode) : Val → Option Val
+  | .list (w :: ws) => if m.noCast then some (.list (w :: ws)) else if m.noLoss && !ws.isEmpty then none else some w
+  | v => some v
+
+/-- `to_dict` (transform.py:311-386) on the value shapes of the fragment: a mapping is itself; an empty sequence is
+the empty mapping; a sequence that is not a collection of key/value pairs is read through its first item
+(`_attempt_from`; with `no_data_loss` only if it is the only item), which must be a mapping or an empty sequence;
+scalars and None never convert; nothing converts under `no_explicit_cast`.  (Sequences of pairs are outside the
+modelled fragment.)  `none` = the conversion raises. -/
+def toDict (m : Mode) : Val → Option (List (Key × Val))
+  | .dict kvs => some kvs
+  | .list [] => if m.noCast then none else some []
+  | .list (w :: ws) =>
+    if m.noCast then none else if m.noLoss && !ws.isEmpty then none else
+    match w with
+    | .dict kvs => some kvs
+    | .list [] => some []
+    | _ => none
+  | _ => none
+
 def indexed {α} : Nat → List α → List (Nat × α)
   | _, [] => []
   | i, a :: as => (i, a) :: indexed (i + 1) as
@@ -256,6 +279,22 @@ def parseDF (Q : Quirks) (rec : Parser) (c : Ctx) (fields : List (String × Ty))
     (seqM (fun (it : String × Ty × Val) => mapOut (fun r => (it.1, r)) (parseField Q rec c it.2.1 it.2.2))
       (knownItems fields kvs))
 
+/-- is the data key a declared field -/
+def isKnown (fields : List (String × Ty)) (kv : Key × Val) : Bool :=
+  match kv.1 with
+  | .str s => (fields.lookup s).isSome
+  | .int _ => false
+
+def hasUnknown (fields : List (String × Ty)) (kvs : List (Key × Val)) : Bool := kvs.any fun kv => !isKnown fields kv
+
+/-- the data keys before the first undeclared one -/
+def knownPrefix (fields : List (String × Ty)) (kvs : List (Key × Val)) : List (Key × Val) := kvs.takeWhile (isKnown fields)
+
+/-- an undeclared key is an error when additions are forbidden (`parse_addition`, base.py: `addition is False`
+→ ExceedError): whatever was parsed before it has been paid for -/
+def failIf {β} (b : Bool) (o : Out β × Nat) : Out β × Nat :=
+  if b then (match o with | (.ok _, n) => (.err {}, n) | (.err f, n) => (.err f, n)) else o
+
 /-- rule.py:1992-2013: key context route `f"{key}<key>"` (never falsy; keys of the declared key type
 pass by the exact-type shortcut), value context route = the key itself -/
 def parseEntries (Q : Quirks) (rec : Parser) (c : Ctx) (kt : KeyTy) (t : Ty) (kvs : List (Key × Val)) :
@@ -301,13 +340,22 @@ def step (W : World) (Q : Quirks) (E : Env) (rec : Parser) (c : Ctx) (T : Ty) (v
     | some cd =>
       -- cls.py:558-561 → options.py:219-258: a context *without route* for the nested class,
       -- with the class' own options; options.py:355-358 one level deeper; :374 the check
+      -- cls.py:616-630 `transform_dataclass` looks at the value before any context is made
+      match unwrapData c.mode v with
+      | none => (.err {}, 0)
+      | some v1 =>
       if exceeded cd.maxDepth (c.depth + 1) then (.err { depth := true }, 0) else
       let c' : Ctx := { depth := c.depth + 1, mode := cd.mode, md := cd.maxDepth }
-      match v with
-      | .dict kvs =>
-        mapOut (Res.data k) (if cd.dfs then parseDF Q rec c' cd.fields kvs else parseFF Q rec c' cd.fields kvs)
-      -- cls.py:569-577: not a Mapping → TypeError / `to_dict` fails on scalars and None
-      | _ => (.err {}, 0)
+      -- cls.py:583-591: not a Mapping → `to_dict` under the class' own preferences
+      match toDict cd.mode v1 with
+      | some kvs =>
+        -- options.py:151-155: `no_data_loss` forbids additional keys (addition=False); field-first reports them after
+        -- the fields (base.py `if options.addition is not None` loop), data-first at their place in the input
+        let b := cd.mode.noLoss && hasUnknown cd.fields kvs
+        mapOut (Res.data k) (failIf b
+          (if cd.dfs then parseDF Q rec c' cd.fields (if b then knownPrefix cd.fields kvs else kvs)
+           else parseFF Q rec c' cd.fields kvs))
+      | none => (.err {}, 0)
   | .list t =>
     match wrapSeq c.mode v with
     | none => (.err {}, 0)
@@ -317,10 +365,10 @@ def step (W : World) (Q : Quirks) (E : Env) (rec : Parser) (c : Ctx) (T : Ty) (v
     | none => (.err {}, 0)
     | some vs => mapOut Res.tuple (parseItems Q rec c t vs)
   | .dict kt t =>
-    match v with
-    | .dict kvs => mapOut Res.dict (parseEntries Q rec c kt t kvs)
-    -- to_dict on a scalar / None raises (transform.py:311-386)
-    | _ => (.err {}, 0)
+    -- rule.py:1699-1703: `to_dict` under the context's preferences, then the entries
+    match toDict c.mode v with
+    | some kvs => mapOut Res.dict (parseEntries Q rec c kt t kvs)
+    | none => (.err {}, 0)
   | .union ts => parseUnion Q rec c ts v
 
 /-- `parse fuel c T v` — outcome and number of leaf-converter invocations.  `fuel` bounds the
@@ -407,6 +455,11 @@ end
 
 def fieldsOf (E : Env) (k : Nat) : Option (List (String × Ty)) := (E[k]?).map (·.fields)
 
+def isScalarVal : Val → Bool
+  | .tok _ => true
+  | .none => true
+  | _ => false
+
 def isTok : Val → Bool
   | .tok _ => true
   | _ => false
@@ -428,8 +481,13 @@ inductive Forced (E : Env) : Ty → Val → Nat → Prop
   /-- a leaf / None type never accepts a container -/
   | leafBad (v : Val) (n : Nat) : isTok v = false → Forced E .leaf v n
   | noneBad (v : Val) (n : Nat) : isNoneVal v = false → Forced E .none v n
-  /-- a data class never accepts a non-mapping; an undeclared class accepts nothing -/
-  | dataBad (k : Nat) (v : Val) (n : Nat) : isDict v = false ∨ fieldsOf E k = none → Forced E (.data k) v n
+  /-- a data class never accepts a scalar; an undeclared class accepts nothing -/
+  | dataBad (k : Nat) (v : Val) (n : Nat) : isScalarVal v = true ∨ fieldsOf E k = none → Forced E (.data k) v n
+  /-- a sequence given where a data class is expected stands for the mapping `transform_dataclass` / `to_dict`
+  find in it (first item, first item of the first item), whatever the preferences — if any -/
+  | dataSeq (k : Nat) (ws : List Val) (n : Nat) :
+      (∀ m m' v1 kvs, unwrapData m (.list ws) = some v1 → toDict m' v1 = some kvs → Forced E (.data k) (.dict kvs) n) →
+      Forced E (.data k) (.list ws) n
   /-- one more level: a declared field of the class, present in the mapping, forces `n` levels below -/
   | data (k : Nat) (fields : List (String × Ty)) (kvs : List (Key × Val)) (f : String) (ft : Ty) (sub : Val) (n : Nat) :
       fieldsOf E k = some fields → fields.lookup f = some ft → lookupKey (.str f) kvs = some sub →
@@ -443,7 +501,10 @@ inductive Forced (E : Env) : Ty → Val → Nat → Prop
   /-- any value of a mapping (any key) -/
   | dictMem (kt : KeyTy) (t : Ty) (kvs : List (Key × Val)) (key : Key) (x : Val) (n : Nat) :
       (key, x) ∈ kvs → Forced E t x n → Forced E (.dict kt t) (.dict kvs) n
-  | dictBad (kt : KeyTy) (t : Ty) (v : Val) (n : Nat) : isDict v = false → Forced E (.dict kt t) v n
+  | dictBad (kt : KeyTy) (t : Ty) (v : Val) (n : Nat) : isScalarVal v = true → Forced E (.dict kt t) v n
+  | dictSeq (kt : KeyTy) (t : Ty) (ws : List Val) (n : Nat) :
+      (∀ m kvs, toDict m (.list ws) = some kvs → Forced E (.dict kt t) (.dict kvs) n) →
+      Forced E (.dict kt t) (.list ws) n
   /-- a union: whichever alternative reads the value (any branch) -/
   | union (ts : List Ty) (v : Val) (n : Nat) : isNoneVal v = false → (∀ t ∈ ts, Forced E t v n) → Forced E (.union ts) v n
 
@@ -455,11 +516,6 @@ def stage3 (m : Mode) : Bool := !m.noLoss && !m.noCast
 
 def isScalarTy : Ty → Bool
   | .leaf => true
-  | .none => true
-  | _ => false
-
-def isScalarVal : Val → Bool
-  | .tok _ => true
   | .none => true
   | _ => false
 
